@@ -19,7 +19,7 @@ EVS = ["alpha", "beta", "gamma", "delta"]
 def scenario(rng):
     coro = rng.choice([0.0, 0.0, 0.5, 1.0])
     scn = gen.rand_engine_scenario(
-        rng, nested=0.15, fail=0.0, dense=rng.choice([0.6, 1.0]), guards=rng.random() < 0.3, validators=False,
+        rng, nested=0.45, fail=0.0, dense=rng.choice([0.6, 1.0]), guards=rng.random() < 0.3, validators=False,
         coro=coro, yields=1, nsends=rng.randint(2, 7), unknown=("nope",), events=EVS,
         provs=rng.choice([["sm"], ["sm", "model"], ["sm", "l1"], ["sm", "model", "l1"]]))
     d = scn["classes"][0]
